@@ -7,7 +7,10 @@ Value types (all subclasses of SArr so that the engine's array dispatch, loop ha
   M2      (n, m) matrix, both extents symbolic: z3 Array (Int, Int) -> elem
   Points  (n, 3) point cloud (three coordinate columns)       [not an SArr: immutable input]
   Resh / PairDiff   `P.reshape((-1,1,3))`, `P.reshape((1,-1,3))` and their difference
-  Masked  numpy.ma.array(data, mask=mask);  FlatIdx  the flat position returned by Masked.argmin()
+  Masked  numpy.ma.array(data, mask=mask);  FlatIdx  the flat position returned by Masked.argmin() / M2.argmin()
+  PointsT  `P.T`;  SqDiff  `(P[:, None] - P[None, :]) ** 2`;  FP  static rounding-error record of a real matrix expression (see the class)
+Matrix reductions / selections: M.max(), M.min(), M.argmin(), np.where(C, x, y), np.sqrt(M), np.maximum(M, c); Gram idiom: np.einsum('ij,ij->i', P, P),
+P @ P.T, c * P, v[:, None] + v[None, :].  Cross-check against numpy: tools/xcheck_ext_C17.py.
 
 Every model records what it assumes with eng.assumptions.add("numpy-model(C17): ...").
 """
@@ -101,6 +104,73 @@ class XArr(SArr):
     """marker: extension array values"""
 
 
+# ------------------------------------------------------------ static rounding-error bookkeeping
+RSQRT = z3.Function("rsqrt", z3.RealSort(), z3.RealSort())  # the real square root; the proofs use only rsqrt(x) >= 0 and rsqrt(0) = 0
+
+
+class FP:
+    """What is known STATICALLY about the floating-point evaluation of a real-valued array expression (the semantic value is the
+    exact real term, "floats are reals"; this record rides along and is consulted only by the float clause of a contract).
+      inexact   the value carries rounding error (False: an input of the carrier, or an exact constant)
+      nonneg / nonpos   sign known from the shape of the expression (square, sum of squares, sqrt, maximum(., 0) ...)
+      ops       number of roundings on the longest path (k of the usual relative-error bound gamma_k)
+      sites     additions / subtractions that combine operands of which at least one is already rounded and whose signs are not
+                statically coherent (x + y with x, y of the same sign, x - y with opposite signs: no cancellation, the relative errors
+                of the operands carry over; otherwise the relative error of the result is unbounded): (description, sign-coherence
+                formula over all cells).  An expression WITHOUT such sites has a relative error of at most gamma_ops."""
+
+    def __init__(self, inexact, nonneg=False, nonpos=False, ops=0, sites=()):
+        self.inexact, self.nonneg, self.nonpos, self.ops, self.sites = inexact, nonneg, nonpos, ops, tuple(sites)
+
+
+def fp_of(v):
+    from fractions import Fraction
+
+    if isinstance(v, Points):
+        return FP(False)
+    if isinstance(v, bool):
+        return None
+    if isinstance(v, (int, float, Fraction)):
+        return FP(False, nonneg=v >= 0, nonpos=v <= 0)
+    return getattr(v, "fp", None)
+
+
+def fp_additive(sub, fx, fy, formula, what):
+    """x + y (sub=False) or x - y (sub=True); `formula()` = the z3 statement that the operands are sign-coherent in every cell"""
+    if fx is None or fy is None:
+        return None
+    sites = fx.sites + fy.sites
+    y_nonneg, y_nonpos = (fy.nonpos, fy.nonneg) if sub else (fy.nonneg, fy.nonpos)
+    if (fx.inexact or fy.inexact) and not ((fx.nonneg and y_nonneg) or (fx.nonpos and y_nonpos)):
+        sites += ((what, formula()),)
+    return FP(True, fx.nonneg and y_nonneg, fx.nonpos and y_nonpos, max(fx.ops, fy.ops) + 1, sites)
+
+
+def fp_mul(fx, fy, same=False):
+    if fx is None or fy is None:
+        return None
+    return FP(True, same or (fx.nonneg and fy.nonneg) or (fx.nonpos and fy.nonpos), (fx.nonneg and fy.nonpos) or (fx.nonpos and fy.nonneg),
+              fx.ops + fy.ops + 1, fx.sites + fy.sites)
+
+
+def fp_binop(op, fx, fy, formula, what):
+    if isinstance(op, (ast.Add, ast.Sub)):
+        return fp_additive(isinstance(op, ast.Sub), fx, fy, formula, what)
+    if isinstance(op, ast.Mult):
+        return fp_mul(fx, fy)
+    return None
+
+
+def coherent(sub, x, y):
+    """no cancellation in x + y / x - y: the two summands have the same sign"""
+    return z3.Or(z3.And(x >= 0, y <= 0), z3.And(x <= 0, y >= 0)) if sub else z3.Or(z3.And(x >= 0, y >= 0), z3.And(x <= 0, y <= 0))
+
+
+def _cells2(n, m, f):
+    a, b = z3.Int(fresh_name("fa")), z3.Int(fresh_name("fb"))
+    return z3.ForAll([a, b], z3.Implies(z3.And(0 <= a, a < n, 0 <= b, b < m), f(a, b)))
+
+
 # --------------------------------------------------------------------------- 1-D
 class V1(XArr):
     def get(self, i):
@@ -111,7 +181,9 @@ class V1(XArr):
             used(eng, "a[:, None] is the (n, 1) column view of a 1-D array")
             return ColVec(self)
         if isinstance(idx, tuple) and len(idx) == 2 and idx[0] is None and _is_full(idx[1]):
-            return SArr(self.arr, self.n, self.kind, name=self.name + "_row")  # (1, n): broadcasts like the 1-D array itself
+            row = SArr(self.arr, self.n, self.kind, name=self.name + "_row")  # (1, n): broadcasts like the 1-D array itself
+            row.fp = getattr(self, "fp", None)
+            return row
         if (isinstance(idx, int) and not isinstance(idx, bool)) or isinstance(idx, Sym):
             iz = models.norm_index(eng, idx, self.n, "array index")
             return Sym(sel1(self.arr, iz), self.kind)
@@ -134,6 +206,7 @@ class ColVec(XArr):
     def __init__(self, src, f=None, kind=None):
         super().__init__(src.arr, src.n, kind or src.kind, name=src.name + "_col")
         self.src, self.f = src, f
+        self.fp = getattr(src, "fp", None) if f is None else None
 
     def cell(self, a):
         return self.f(a) if self.f is not None else to_z3(self.src.get(a))
@@ -156,6 +229,20 @@ class ColVec(XArr):
         other, left = (b, True) if a is self else (a, False)
         if isinstance(other, M2):
             return other.__pyvc_binop__(eng, op, a, b)
+        if isinstance(other, SArr) and not isinstance(other, XArr):
+            # (n, 1) op (m,): numpy broadcasts to the (n, m) matrix of all pairs
+            used(eng, "elementwise arithmetic with numpy broadcasting")
+            k = npmodels._join_kind(self.kind, other.kind, op)
+            cell, mk, oarr, ok = self.cell, self.kind, other.arr, other.kind
+            cx = lambda x, y: to_z3(Sym(cell(x), mk), k)
+            cy = lambda x, y: to_z3(Sym(sel1(oarr, y), ok), k)
+            if not left:
+                cx, cy = cy, cx
+            out = M2(lam2(lambda x, y: _arith(eng, op, cx(x, y), cy(x, y), k)), self.n, other.n, k, name="expr")
+            fa, fb = (fp_of(self), fp_of(other)) if left else (fp_of(other), fp_of(self))
+            n_, m_ = self.nz(), other.nz()
+            out.fp = fp_binop(op, fa, fb, lambda: _cells2(n_, m_, lambda x, y: coherent(isinstance(op, ast.Sub), cx(x, y), cy(x, y))), f"(n, 1) {type(op).__name__} (m,)")
+            return out
         ko = kind_of(other)
         if ko is None:
             raise Unsupported(f"column view {type(op).__name__} {type(other).__name__}")
@@ -208,6 +295,10 @@ class M2(XArr):
         if name == "T":
             arr = self.arr
             return M2(lam2(lambda a, b: sel2(arr, b, a)), self.m, self.n, self.kind, self.name + "_T", self.dtype)
+        if name in ("max", "min"):
+            return NativeMethod(_m2_red(name == "max"), self, name)
+        if name == "argmin":
+            return NativeMethod(_m2_argmin, self, name)
         raise Unsupported(f"attribute {name} of a symbolic matrix")
 
     def _scalar_idx(self, x):
@@ -302,11 +393,16 @@ class M2(XArr):
             raise Unsupported(f"matrix {type(op).__name__} {type(other).__name__}")
         k = npmodels._join_kind(sk, ok, op)
         ck = "bool" if isinstance(op, (ast.BitAnd, ast.BitOr)) else k
-        if me_left:
-            body = lambda x, y: _arith(eng, op, to_z3(Sym(sel2(arr, x, y), sk), ck), to_z3(oc(x, y), ck), ck, scalar=1 if scalar else None)
-        else:
-            body = lambda x, y: _arith(eng, op, to_z3(oc(x, y), ck), to_z3(Sym(sel2(arr, x, y), sk), ck), ck, scalar=0 if scalar else None)
-        return M2(lam2(body), self.n, self.m, k, name="expr")
+        mine = lambda x, y: to_z3(Sym(sel2(arr, x, y), sk), ck)
+        theirs = lambda x, y: to_z3(oc(x, y), ck)
+        cx, cy = (mine, theirs) if me_left else (theirs, mine)
+        body = lambda x, y: _arith(eng, op, cx(x, y), cy(x, y), ck, scalar=(1 if me_left else 0) if scalar else None)
+        out = M2(lam2(body), self.n, self.m, k, name="expr")
+        if k == "real":
+            fa, fb = (fp_of(self), fp_of(other)) if me_left else (fp_of(other), fp_of(self))
+            n_, m_ = self.nz(), self.mz()
+            out.fp = fp_binop(op, fa, fb, lambda: _cells2(n_, m_, lambda x, y: coherent(isinstance(op, ast.Sub), cx(x, y), cy(x, y))), f"matrix {type(op).__name__}")
+        return out
 
 
 # --------------------------------------------------------------------- point cloud
@@ -339,7 +435,21 @@ class Points:
             return 2
         if name == "reshape":
             return NativeMethod(_pts_reshape, self, name)
+        if name == "T":
+            return PointsT(self)
         raise Unsupported(f"attribute {name} of the point cloud")
+
+    def __pyvc_binop__(self, eng, op, a, b):
+        if isinstance(op, ast.MatMult) and isinstance(a, Points) and isinstance(b, PointsT):
+            return _gram(eng, a, b.pts)
+        other = b if a is self else a
+        if isinstance(op, ast.Mult) and not isinstance(other, (Sym, bool)) and kind_of(other) in ("int", "real"):
+            used(eng, "elementwise arithmetic with numpy broadcasting")
+            cz = to_z3(other, "real")
+            out = Points([npmodels.lam(lambda x, _c=col: cz * z3.Select(_c, x), "real") for col in self.cols], self.n, name=self.name + "_scaled")
+            out.frozen = False
+            return out
+        raise Unsupported(f"{type(op).__name__} on the point cloud")
 
     def __pyvc_getitem__(self, eng, idx):
         if isinstance(idx, tuple) and len(idx) == 2 and _is_full(idx[0]) and isinstance(idx[1], int) and not isinstance(idx[1], bool):
@@ -352,11 +462,113 @@ class Points:
         if (isinstance(idx, int) and not isinstance(idx, bool)) or isinstance(idx, Sym):
             iz = models.norm_index(eng, idx, self.n, "point index")
             return NArr((3,), [Sym(z3.Select(c, iz), "real") for c in self.cols], "real")
+        if isinstance(idx, tuple) and len(idx) in (2, 3) and all(_is_full(x) for x in idx[2:]):
+            # P[:, None] / P[:, None, :] = P.reshape((-1, 1, 3)),  P[None, :] / P[None, :, :] = P.reshape((1, -1, 3))
+            if _is_full(idx[0]) and idx[1] is None:
+                return Resh(self, "col")
+            if idx[0] is None and _is_full(idx[1]):
+                return Resh(self, "row")
         raise Unsupported("index form on the point cloud")
 
     def __pyvc_setitem__(self, eng, idx, val):
         if not eng.spec_mode:
             eng.prove(eng.site("frame-write"), False, "frame", "write to the input point cloud")
+
+
+class PointsT:
+    """P.T, the (3, n) transpose of a point cloud"""
+
+    def __init__(self, pts):
+        self.pts = pts
+        self.uid = next_uid()
+
+    def __pyvc_getattr__(self, eng, name):
+        if name == "shape":
+            return (3, eng.snum(self.pts.nz(), "int"))
+        if name == "T":
+            return self.pts
+        raise Unsupported(f"attribute {name} of a transposed point cloud")
+
+    def __pyvc_binop__(self, eng, op, a, b):
+        if isinstance(op, ast.MatMult) and isinstance(a, Points) and isinstance(b, PointsT):
+            return _gram(eng, a, b.pts)
+        raise Unsupported(f"{type(op).__name__} on a transposed point cloud")
+
+
+def _dot3(P, a, Q, b):
+    return [z3.Select(P.cols[c], a) * z3.Select(Q.cols[c], b) for c in range(3)]
+
+
+def _same_sign_all(ts):
+    return z3.Or(z3.And(*[t >= 0 for t in ts]), z3.And(*[t <= 0 for t in ts]))
+
+
+def _gram(eng, P, Q):
+    """P @ Q.T for two (n, 3), (m, 3) clouds: the (n, m) matrix of the inner products of the rows"""
+    used(eng, "P @ Q.T of two point clouds is the (n, m) matrix of the inner products <P[a], Q[b]> (sum over the three coordinates)")
+    out = M2(lam2(lambda a, b: z3.Sum(*_dot3(P, a, Q, b))), P.n, Q.n, "real", name="gram")
+    n_, m_ = P.nz(), Q.nz()
+    # the three products are rounded and of arbitrary sign: their sum is a cancellation site unless the signs agree
+    out.fp = FP(True, ops=3, sites=(("inner products of the rows (P @ Q.T)", _cells2(n_, m_, lambda a, b: _same_sign_all(_dot3(P, a, Q, b)))),))
+    return out
+
+
+def _np_einsum(eng, args, kwargs):
+    if len(args) == 3 and args[0] == "ij,ij->i" and isinstance(args[1], Points) and isinstance(args[2], Points) and not kwargs:
+        P, Q = args[1], args[2]
+        _shape_oblig(eng, P.n, Q.n, "einsum ij,ij->i: rows")
+        used(eng, "np.einsum('ij,ij->i', P, Q) of two (n, 3) point clouds is the vector of the row-wise inner products <P[a], Q[a]>")
+        out = V1(npmodels.lam(lambda a: z3.Sum(*_dot3(P, a, Q, a)), "real"), P.n, "real", name="rowdot")
+        if P is Q:
+            out.fp = FP(True, nonneg=True, ops=3)  # a sum of squares
+        else:
+            n_ = P.nz()
+            a = z3.Int(fresh_name("fa"))
+            out.fp = FP(True, ops=3, sites=(("row-wise inner products (einsum)", z3.ForAll([a], z3.Implies(z3.And(0 <= a, a < n_), _same_sign_all(_dot3(P, a, Q, a))))),))
+        return out
+    raise Unsupported("np.einsum form (modelled: 'ij,ij->i' on two point clouds)")
+
+
+def _np_sqrt(eng, args, kwargs):
+    x = args[0]
+    if isinstance(x, M2) and len(args) == 1 and not kwargs:
+        if x.kind != "real":
+            raise Unsupported("np.sqrt of a non-float matrix")
+        used(eng, "np.sqrt of a matrix is the cellwise real square root rsqrt (used: rsqrt(x) >= 0, rsqrt(0) = 0); a negative argument (nan + RuntimeWarning in numpy) is excluded by the obligation sqrt-nonneg")
+        arr = x.arr
+        if not eng.spec_mode:
+            eng.prove(eng.site("sqrt-nonneg"), _cells2(x.nz(), x.mz(), lambda a, b: sel2(arr, a, b) >= 0), "safety", "np.sqrt of a negative number is nan")
+        out = M2(lam2(lambda a, b: RSQRT(sel2(arr, a, b))), x.n, x.m, "real", name="sqrt")
+        f = fp_of(x)
+        out.fp = None if f is None else FP(True, nonneg=True, ops=f.ops + 1, sites=f.sites)
+        return out
+    if isinstance(x, (XArr, Points)):
+        raise Unsupported("np.sqrt of this value")
+    return narr.np_sqrt(eng, args, kwargs)
+
+
+def _np_maximum(eng, args, kwargs):
+    if len(args) == 2 and not kwargs and any(isinstance(x, M2) for x in args):
+        x, c = (args[0], args[1]) if isinstance(args[0], M2) else (args[1], args[0])
+        if isinstance(c, (XArr, SArr, NArr)) or kind_of(c) is None:
+            raise Unsupported("np.maximum of a matrix with a non-scalar")
+        used(eng, "np.maximum(M, c) is the cellwise maximum with the scalar c")
+        k = npmodels._join_kind(x.kind, kind_of(c))
+        arr, xk, cz = x.arr, x.kind, to_z3(c, k)
+        cell = lambda a, b: to_z3(Sym(sel2(arr, a, b), xk), k)
+        out = M2(lam2(lambda a, b: z3.If(cell(a, b) >= cz, cell(a, b), cz)), x.n, x.m, k, name="maximum")
+        f, fc = fp_of(x), fp_of(c)
+        out.fp = None if f is None or fc is None else FP(f.inexact, nonneg=f.nonneg or fc.nonneg, nonpos=f.nonpos and fc.nonpos, ops=f.ops, sites=f.sites)
+        return out
+    if any(isinstance(x, (XArr, Points)) for x in args):
+        raise Unsupported("np.maximum of this value")
+    return narr.np_maximum(eng, args, kwargs)
+
+
+def sumsq(P, a, b):
+    """|P[a] - P[b]|^2 as a polynomial in the coordinates"""
+    d = [z3.Select(P.cols[c], a) - z3.Select(P.cols[c], b) for c in range(3)]
+    return z3.Sum(*[t * t for t in d])
 
 
 def _pts_reshape(eng, recv, args, kwargs):
@@ -388,20 +600,43 @@ class PairDiff(XArr):
         self.pts, self.swapped = pts, swapped
 
     def __pyvc_binop__(self, eng, op, a, b):
+        if (isinstance(op, ast.Pow) and a is self and b == 2 and not isinstance(b, bool)) or (isinstance(op, ast.Mult) and a is self and b is self):
+            used(eng, "D ** 2 / D * D of the (n, n, 3) array of pairwise differences: the array of squared coordinate differences")
+            return SqDiff(self.pts)
         raise Unsupported("arithmetic on the pairwise-difference array")
 
 
-def euclid(eng, pts):
-    """ghost function edist(a, b) = |P[a] - P[b]| of a point cloud (one per Points value)."""
-    key = ("edist", pts.uid)
-    f = eng.ghost.get(key)
-    if f is None:
-        f = z3.Function(fresh_name("edist"), I, I, z3.RealSort())
-        a, b = z3.Int(fresh_name("ea")), z3.Int(fresh_name("eb"))
-        eng.assume(z3.ForAll([a, b], z3.And(f(a, b) >= 0, f(a, b) == f(b, a)), patterns=[f(a, b)]))
-        eng.assume(z3.ForAll([a], f(a, a) == 0, patterns=[f(a, a)]))
-        eng.ghost[key] = f
-    return f
+class SqDiff(XArr):
+    """(P[a] - P[b]) ** 2, shape (n, n, 3)"""
+
+    def __init__(self, pts):
+        super().__init__(z3.K(I, z3.RealVal(0)), pts.n, "real", name="sqdiff")
+        self.pts = pts
+
+    def get(self, i):
+        raise Unsupported("1-D access to the squared pairwise differences")
+
+    def __pyvc_getitem__(self, eng, idx):
+        raise Unsupported("subscript of the squared pairwise differences")
+
+    def __pyvc_getattr__(self, eng, name):
+        if name == "sum":
+            return NativeMethod(_sqdiff_sum, self, name)
+        raise Unsupported(f"attribute {name} of the squared pairwise differences")
+
+    def __pyvc_binop__(self, eng, op, a, b):
+        raise Unsupported("arithmetic on the squared pairwise differences")
+
+
+def _sqdiff_sum(eng, recv, args, kwargs):
+    axis = kwargs.get("axis", args[0] if args else None)
+    if axis not in (2, -1) or len(args) > 1 or set(kwargs) - {"axis"}:
+        raise Unsupported("sum of the squared pairwise differences: only over the last axis")
+    used(eng, "S.sum(axis=2) of the (n, n, 3) array of squared coordinate differences: the (n, n) matrix of squared Euclidean distances (a sum of three squares)")
+    P = recv.pts
+    out = M2(lam2(lambda a, b: sumsq(P, a, b)), P.n, P.n, "real", name="sqdist")  # (x_a - x_b)^2 is symmetric: the order of the two views does not matter
+    out.fp = FP(True, nonneg=True, ops=5)  # 1 (difference of inputs) -> 3 (square) -> 5 (sum of three, all non-negative)
+    return out
 
 
 def _np_norm(eng, args, kwargs):
@@ -409,10 +644,13 @@ def _np_norm(eng, args, kwargs):
     if isinstance(x, PairDiff):
         if kwargs.get("axis", args[2] if len(args) > 2 else None) != 2 or kwargs.get("ord", args[1] if len(args) > 1 else None) is not None:
             raise Unsupported("np.linalg.norm of the pairwise differences: only the Euclidean norm over axis=2")
-        used(eng, "np.linalg.norm(P.reshape((-1,1,3)) - P.reshape((1,-1,3)), axis=2)[a, b] = edist(a, b), the Euclidean distance of "
-                  "P[a] and P[b]; only edist >= 0, edist(a, b) = edist(b, a), edist(a, a) = 0 are used (edist is otherwise abstract)")
-        f = euclid(eng, x.pts)
-        return M2(lam2((lambda a, b: f(b, a)) if x.swapped else (lambda a, b: f(a, b))), x.pts.n, x.pts.n, "real", name="dis")
+        used(eng, "np.linalg.norm(D, axis=2) of the (n, n, 3) array of pairwise differences D[a, b] = P[a] - P[b] is the matrix of "
+                  "rsqrt(D[a, b, 0]^2 + D[a, b, 1]^2 + D[a, b, 2]^2) (rsqrt = real square root; floating point: differences of inputs, "
+                  "a sum of squares and a square root - no cancellation of rounded quantities)")
+        P = x.pts
+        out = M2(lam2((lambda a, b: RSQRT(sumsq(P, b, a))) if x.swapped else (lambda a, b: RSQRT(sumsq(P, a, b)))), P.n, P.n, "real", name="dis")
+        out.fp = FP(True, nonneg=True, ops=6)  # 1 (difference of inputs) -> 3 (square) -> 5 (sum of three) -> sqrt
+        return out
     if isinstance(x, (XArr, Points)):
         raise Unsupported("np.linalg.norm of this value")
     return narr.np_norm(eng, args, kwargs)
@@ -491,6 +729,98 @@ def _np_full(eng, args, kwargs):
     return _filled(eng, sh, fv, k, dt, "full")
 
 
+# ------------------------------------------------------------------ reductions of a symbolic matrix
+def _nonempty(eng, n, m, what):
+    """numpy raises ValueError for a reduction without identity / an argmin over an empty array"""
+    c = eng.sbool(z3.And(n > 0, m > 0))
+    if not eng.branch(c):
+        raise ProgExc(ValueError, what + " of an empty array")
+
+
+def _m2_red(is_max):
+    def f(eng, recv, args, kwargs):
+        if args or kwargs:
+            raise Unsupported("matrix max/min with arguments")
+        if recv.kind not in ("real", "int"):
+            raise Unsupported("max/min of a non-numeric matrix")
+        n, m = recv.nz(), recv.mz()
+        _nonempty(eng, n, m, "max" if is_max else "min")
+        used(eng, "M.max() / M.min() of a non-empty (n, m) matrix: bounds every cell and is the value of some cell")
+        arr = recv.arr
+        a, b = z3.Int(fresh_name("xa")), z3.Int(fresh_name("xb"))
+        wa, wb = fresh("int", "ext_i"), fresh("int", "ext_j")
+        r = fresh(recv.kind, "mx" if is_max else "mn")
+        bound = (sel2(arr, a, b) <= r.z) if is_max else (sel2(arr, a, b) >= r.z)
+        eng.assume(z3.And(0 <= wa.z, wa.z < n, 0 <= wb.z, wb.z < m, sel2(arr, wa.z, wb.z) == r.z,
+                          z3.ForAll([a, b], z3.Implies(z3.And(0 <= a, a < n, 0 <= b, b < m), bound))))
+        return r
+
+    return f
+
+
+def argmin_first(eng, cell, n, m, what="argmin"):
+    """(A) ndarray.argmin() of a non-empty (n, m) array followed by np.unravel_index(., (n, m)): the cell (i, j) that comes FIRST in
+    row-major order among the cells of minimal value.  `cell(a, b)` is the z3 term of cell (a, b)."""
+    a, b = z3.Int(fresh_name("ua")), z3.Int(fresh_name("ub"))
+    inr = z3.And(0 <= a, a < n, 0 <= b, b < m)
+    i, j = fresh("int", "arg_i"), fresh("int", "arg_j")
+    first = z3.Or(i.z < a, z3.And(i.z == a, j.z <= b))
+    eng.assume(z3.And(0 <= i.z, i.z < n, 0 <= j.z, j.z < m,
+                      z3.ForAll([a, b], z3.Implies(inr, z3.And(cell(i.z, j.z) <= cell(a, b), z3.Implies(cell(a, b) == cell(i.z, j.z), first))))))
+    return i, j
+
+
+def _m2_argmin(eng, recv, args, kwargs):
+    if args or kwargs:
+        raise Unsupported("ndarray.argmin with arguments")
+    if recv.kind not in ("real", "int"):
+        raise Unsupported("argmin of a non-numeric matrix")
+    n, m = recv.nz(), recv.mz()
+    _nonempty(eng, n, m, "argmin")
+    used(eng, "ndarray.argmin() of a non-empty (n, m) matrix with np.unravel_index(., shape) = the first cell in row-major order among the cells of minimal value")
+    arr = recv.arr
+    i, j = argmin_first(eng, lambda x, y: sel2(arr, x, y), n, m)
+    return FlatIdx(i, j, recv.n, recv.m)
+
+
+def _np_where(eng, args, kwargs):
+    """np.where(C, x, y) with an (n, m) condition: cellwise choice (x, y scalars or (n, m) matrices)"""
+    if len(args) == 3 and isinstance(args[0], M2) and not kwargs:
+        c, x, y = args
+        if c.kind != "bool":
+            raise Unsupported("np.where with a non-boolean matrix condition")
+        ks = []
+        for v in (x, y):
+            if isinstance(v, M2):
+                _shape_oblig(eng, c.n, v.n, "np.where: rows")
+                _shape_oblig(eng, c.m, v.m, "np.where: columns")
+                ks.append(v.kind)
+            elif isinstance(v, SArr) or kind_of(v) is None:
+                raise Unsupported("np.where(matrix, ., .) with an operand that is neither a scalar nor a matrix of the same shape")
+            else:
+                ks.append(kind_of(v))
+        k = npmodels._join_kind(ks[0], ks[1])
+        used(eng, "np.where(C, x, y) on an (n, m) boolean matrix: cell (a, b) is x[a, b] where C[a, b], else y[a, b] (scalars broadcast)")
+        carr = c.arr
+        import math
+
+        ops = [x, y]
+        for t in (0, 1):
+            if isinstance(ops[t], float) and math.isinf(ops[t]):
+                # +-inf next to a matrix of finite reals: a constant beyond every cell of the other operand (floats are reals: cells are finite)
+                o = ops[1 - t]
+                if not isinstance(o, M2):
+                    raise Unsupported("np.where with an infinite scalar and a scalar")
+                used(eng, "np.inf / -np.inf in np.where(C, inf, M): a real constant larger / smaller than every cell of M (floats are reals, cells are finite)")
+                inf, oarr, pos = z3.Const(fresh_name("inf"), z3.RealSort()), o.arr, ops[t] > 0
+                eng.assume(_cells2(c.nz(), c.mz(), lambda a, b: (sel2(oarr, a, b) < inf) if pos else (sel2(oarr, a, b) > inf)))
+                ops[t] = Sym(inf, "real")
+        x, y = ops
+        g = [(lambda a, b, _v=v: to_z3(Sym(sel2(_v.arr, a, b), _v.kind), k)) if isinstance(v, M2) else (lambda a, b, _z=to_z3(v, k): _z) for v in (x, y)]
+        return M2(lam2(lambda a, b: z3.If(sel2(carr, a, b), g[0](a, b), g[1](a, b))), c.n, c.m, k, name="where")
+    return npmodels._np_where(eng, args, kwargs)
+
+
 # ------------------------------------------------------------------ masked argmin
 class Masked:
     """numpy.ma.array(data, mask=mask) of two (n, m) matrices (the mask is shared, not copied)."""
@@ -553,13 +883,10 @@ def _masked_argmin(eng, recv, args, kwargs):
               "+inf (primitives: filled, minimum_fill_value(float) = +inf > every cell, ndarray.argmin = first minimum); the characterisation used by "
               "the proof (an unmasked cell, minimal among the unmasked ones) is derived from these on the path; REQUIRES some unmasked cell "
               "(proof obligation argmin-some-unmasked-entry)")
-    i, j = fresh("int", "arg_i"), fresh("int", "arg_j")
     inf = z3.Const(fresh_name("ma_inf"), z3.RealSort())
-    filled = lambda x, y: z3.If(sel2(marr, x, y), inf, sel2(darr, x, y))
+    filled = lambda x, y: z3.If(sel2(marr, x, y), inf, sel2(darr, x, y))                                                          # (F)
     eng.assume(z3.ForAll([a, b], z3.Implies(inr, sel2(darr, a, b) < inf)))                                                     # (I)
-    first = z3.Or(i.z < a, z3.And(i.z == a, j.z <= b))
-    eng.assume(z3.And(0 <= i.z, i.z < n, 0 <= j.z, j.z < m,                                                                        # (F), (A)
-                      z3.ForAll([a, b], z3.Implies(inr, z3.And(filled(i.z, j.z) <= filled(a, b), z3.Implies(filled(a, b) == filled(i.z, j.z), first))))))
+    i, j = argmin_first(eng, filled, n, m)                                                                                         # (A): the same primitive as ndarray.argmin
     derived = z3.And(z3.Not(sel2(marr, i.z, j.z)), z3.ForAll([a, b], z3.Implies(z3.And(inr, z3.Not(sel2(marr, a, b))), sel2(darr, i.z, j.z) <= sel2(darr, a, b))))
     if not eng.spec_mode:
         fn = (eng.cur_key or "?").split(":")[-1]
@@ -626,7 +953,8 @@ def install():
 
     models.EXTRA_MODELS.update({
         np.zeros: _np_zeros, np.ones: _np_ones, np.full: _np_full, np.linalg.norm: _np_norm, np.concatenate: _np_concatenate,
-        ma.array: _ma_array, np.unravel_index: _np_unravel_index, pd.DataFrame.from_dict: _df_from_dict,
+        ma.array: _ma_array, ma.masked_array: _ma_array, np.unravel_index: _np_unravel_index, pd.DataFrame.from_dict: _df_from_dict, np.where: _np_where,
+        np.einsum: _np_einsum, np.sqrt: _np_sqrt, np.maximum: _np_maximum,
     })
     # binary operators on the extension arrays: the engine sends every SArr operand to models.array_binop; values that
     # carry a __pyvc_binop__ method are served by it, everything else goes to the stock implementation unchanged
